@@ -15,7 +15,9 @@ package main
 // Seeded changes (/verif/seeded): C10-c (SerializeU sizes the out count before OR-ing the coinbase bit: 126 outputs + coinbase)
 //   -> recU/panic/SerializeU:..., recU/panic/NewUtxoRecOwnU:..., oneU/panic/OneUtxoRecU:..., snap/plain/process-died;
 //   C10-d (aborted save published when the abort arrives on the full writer queue) -> snap/abort/hurry-queue-full/aborted-save-published-incomplete-snapshot,
-//   snap/abort/hurry-after-pacing-queue-full/aborted-save-published-incomplete-snapshot (abort.go)
+//   snap/abort/hurry-after-pacing-queue-full/aborted-save-published-incomplete-snapshot (abort.go);
+//   C10-e (static decoder clears only rec_outs[:rec_idx]) -> seq/{U,C}/NewUtxoRecStatic/spent-output-decoded-as-live,
+//   seq/U/NewUtxoRecStaticU/..., seq/{U,C}/purge/unspentget-returns-spent-output[-after-reload], seq/{U,C}/purge/record-count-mismatch[-after-reload] (seq.go)
 
 import (
 	"bytes"
